@@ -51,6 +51,20 @@ def rule_accept(ctx):
     same = [t for t in c.nodes if t.kind == "test" and isinstance(t.ast, ast.Compare) and len(t.ast.ops) == 1 and
             {unparse(t.ast.left), unparse(t.ast.comparators[0])} == {"tp_state.position", "fetch_offset"}]
     ctx.ob(R, fi, fi.node, len(valid) >= 1 and len(same) == 1, "no `valid position and position == fetch_offset` test", text="stale-tests")
+    # records are buffered (and highwater / lso recorded) only from a partition entry whose error code is NoError; an error is
+    # recorded / a reset requested only for another code
+    from ..rulekit import must_facts
+    mf = must_facts(c)
+    okc = {("error_type", "is", "Errors.NoError"), ("error_type", "==", "Errors.NoError")}
+    nokc = {("error_type", "is not", "Errors.NoError"), ("error_type", "!=", "Errors.NoError")}
+    data_sites = [n for n in c.nodes if (n.kind == "call" and call_name(n.ast) in ("PartitionRecords", "MemoryRecords", "FetchResult"))
+                  or (n.kind == "store" and unparse(n.ast) in ("tp_state.highwater", "tp_state.lso"))]
+    ctx.anchor(len(data_sites) >= 4, "data sites of a fetch reply (MemoryRecords / PartitionRecords / FetchResult / highwater / lso)")
+    for n in data_sites:
+        ctx.ob(R, fi, n, bool(mf[n] & okc), f"`{n.text()[:50]}` takes data from a partition entry whose error code was not found to be NoError", text="data-only-noerror:" + n.text()[:40])
+    for n in [x for x in c.nodes if x.kind == "call" and call_attr(x.ast) == "await_reset"]:
+        ctx.ob(R, fi, n, ("error_type", "is", "Errors.OffsetOutOfRangeError") in mf[n] or ("error_type", "==", "Errors.OffsetOutOfRangeError") in mf[n],
+               "a position reset is requested for a reply code other than OFFSET_OUT_OF_RANGE", text="reset-only-out-of-range")
     for e in eff:
         heads = _inner_loop_heads(c, e)
         ok = bool(act) and e not in c.reachable([m for m, l in act[0].succ if l == "F"], include_src=True) and c.dominates(act[0], e)
